@@ -37,6 +37,8 @@ func init() {
 			{ID: "C01.R7", Doc: "SplitData yields complementary slices of one base; rawWriteLocked/SplitN set Done from the remainder of the same split", Run: c01r7},
 			{ID: "C01.R8", Doc: "Writer.Empty() agrees with the buffer: abstract (buffer emptiness, flag) pair is consistent at every return of every exported Writer method", Run: writerFlagAgreement},
 			{ID: "C01.R9", Doc: "the marshal buffer Stream.wbuf and every slice aliasing it are used only under Stream.write", Run: c01r9},
+			{ID: "C01.R10", Doc: "the frames of one message are emitted in one critical section of Stream.write: no path emits a frame, releases Stream.write and emits another frame without a message-id bump in between", Run: c01r10},
+			{ID: "C01.R11", Doc: "the borrow packetBuffer.Get .. Done is exclusive per receiver: both calls are made with Stream.read of the same stream held", Run: c01r11},
 			{ID: "C01.S1", Doc: "bytes the transport returns together with an error are parsed before the error is surfaced (nothing already received is dropped)", Alias: "C05.R8"},
 		},
 	})
@@ -522,7 +524,7 @@ func c01r4(c *an.Ctx) {
 	fErr := a.field("drpcstream", "packetBuffer", "err")
 	state := []*types.Var{fData, fSet, fHeld, fErr}
 	condWait := a.obj("sync", "(*Cond).Wait")
-	condBroadcast := a.obj("sync", "(*Cond).Broadcast")
+	_ = a.obj("sync", "(*Cond).Broadcast")
 
 	// (a) every access to the state fields holds pb.mu
 	fns := must(c.P.SourceFuncs("drpcstream"))
@@ -843,52 +845,30 @@ func c01r4(c *an.Ctx) {
 	}
 	c.Floor("invariant-relevant stores of packetBuffer", 1, nInv)
 
-	// (e) every state change is followed by a Broadcast before the mutex is released or waited on
-	for _, name := range []string{"(*packetBuffer).Put", "(*packetBuffer).Get", "(*packetBuffer).Done", "(*packetBuffer).Close"} {
-		fn := c.Fn("drpcstream", name)
-		flow := &an.Flow{Fn: fn, Inline: an.InlineSamePackage(fn), Init: []string{"clean"}, Step: func(st string, in ssa.Instruction) []string {
-			switch x := in.(type) {
-			case *ssa.Store:
-				fv := an.PathOf(x.Addr).Last()
-				for _, s := range state {
-					if fv != nil && fv.Origin() == s.Origin() {
-						return []string{"dirty"}
-					}
-				}
-			case ssa.CallInstruction:
-				if an.IsCallTo(x.Common(), condBroadcast) {
-					return []string{"clean"}
-				}
+	// (e) every state change that can release a waiter is followed by a Broadcast of that waiter's condition
+	// variable before the mutex is released or waited on (wakeup.go)
+	kcache := map[*ssa.Function]*an.FlowResult{}
+	wakeupCompleteness(c, "drpcstream", "packetBuffer", []string{"(*packetBuffer).Put", "(*packetBuffer).Get", "(*packetBuffer).Done", "(*packetBuffer).Close"},
+		func(fn *ssa.Function, st *ssa.Store) bool {
+			// a constant written to set/held where the path already knows the field has that value (held is false
+			// whenever set is, so Put's "held = false" after waiting for !set changes nothing)
+			fv := an.PathOf(st.Addr).Last()
+			cst, isC := st.Val.(*ssa.Const)
+			if fv == nil || !isC || cst.Value == nil {
+				return false
 			}
-			return nil
-		}}
-		res := flow.Run()
-		bad := false
-		var where ssa.Instruction
-		an.Instrs(fn, func(in ssa.Instruction) {
-			isExit := false
-			if _, ok := in.(*ssa.Return); ok {
-				isExit = true
+			if fv.Origin() != fSet.Origin() && fv.Origin() != fHeld.Origin() {
+				return false
 			}
-			if ci, ok := in.(*ssa.Call); ok && an.IsCallTo(ci.Common(), condWait) {
-				isExit = true
+			tag := fv.Name() + "=F"
+			if cst.Value.String() == "true" {
+				tag = fv.Name() + "=T"
 			}
-			if !isExit || !res.Reachable(in.Block()) {
-				return
+			if kcache[fn] == nil {
+				kcache[fn] = knowledge(fn)
 			}
-			for _, st := range res.Before(in) {
-				if st == "dirty" {
-					bad = true
-					where = in
-				}
-			}
+			return allKnow(kcache[fn], st, tag)
 		})
-		pos := c.P.Pos(fn.Pos())
-		if where != nil {
-			pos = c.At(where)
-		}
-		c.Check(!bad, name+" | state change followed by Broadcast", pos, "", "a packetBuffer state change can reach a wait/return without cond.Broadcast: waiters are never woken")
-	}
 }
 
 // storeFollows: st comes after one of the given stores in the same block (Close's data/set stores follow
@@ -1319,4 +1299,111 @@ func c01r9(c *an.Ctx) {
 	n := guardedBuffer(c, pl, must(c.P.SourceFuncs("drpcstream")), a.field("drpcstream", "Stream", "wbuf"), a.field("drpcstream", "Stream", "write"),
 		"Stream.wbuf", "Stream.write", "two concurrent senders on one stream would marshal into the same backing array while one of them is still splitting it into frames (messages altered/merged)")
 	c.Floor("uses of Stream.wbuf and its aliases", 1, n)
+}
+
+// c01r10: a message's frames form one critical section of the write lock. The
+// message is delimited by the id bump; a release of Stream.write after a frame
+// of the current message followed by another frame of it lets a concurrent
+// sender or terminal packet interleave (the peer drops the older message).
+func c01r10(c *an.Ctx) {
+	a := A(c)
+	pl := locksOf(c, "drpcstream")
+	write := a.field("drpcstream", "Stream", "write")
+	idField := a.field("drpcstream", "Stream", "id")
+	wapi := writerAPI(c)
+	emits := append([]*types.Func{a.obj("drpcwire", "(*Writer).WriteFrame"), a.obj("drpcwire", "(*Writer).WritePacket")}, wapi.Emit...)
+	isEmit := func(cc *ssa.CallCommon) bool {
+		for _, m := range emits {
+			if an.IsCallTo(cc, m) {
+				return true
+			}
+		}
+		return false
+	}
+	fns := must(c.P.SourceFuncs("drpcstream"))
+	nEmit, nRel := 0, 0
+	for _, fn := range fns {
+		c.Analysed(fn)
+		seenEmit, seenRel := map[ssa.Instruction]bool{}, map[ssa.Instruction]bool{}
+		bad := map[ssa.Instruction]bool{}
+		step := func(st string, in ssa.Instruction, cc *ssa.CallCommon) []string {
+			if op, ok := pl.LT.OpOf(cc); ok && op.Lock.Class() == write.Origin() {
+				if op.Kind == "unlock" {
+					seenRel[in] = true
+					if st == "emitted" {
+						return []string{"gap"}
+					}
+				}
+				return nil
+			}
+			if isEmit(cc) {
+				seenEmit[in] = true
+				if st == "gap" {
+					bad[in] = true
+				}
+				return []string{"emitted"}
+			}
+			return nil
+		}
+		flow := &an.Flow{Fn: fn, Inline: an.InlineSamePackage(fn), Init: []string{"fresh"},
+			Step: func(st string, in ssa.Instruction) []string {
+				switch in := in.(type) {
+				case *ssa.Go:
+					return nil
+				case ssa.CallInstruction:
+					return step(st, in, in.Common())
+				case *ssa.Store:
+					for _, f := range an.PathOf(in.Addr).Fields {
+						if f.Origin() == idField.Origin() {
+							return []string{"fresh"}
+						}
+					}
+				}
+				return nil
+			},
+			StepDefer: func(st string, d *ssa.Defer) []string { return step(st, d, d.Common()) },
+		}
+		flow.Run()
+		nEmit += len(seenEmit)
+		nRel += len(seenRel)
+		key := an.ShortFunc(fn) + " | frames of one message in one critical section of Stream.write"
+		if len(seenEmit) == 0 {
+			continue
+		}
+		pos := c.P.Pos(fn.Pos())
+		for in := range bad {
+			pos = c.At(in)
+		}
+		c.Check(len(bad) == 0, key, pos, "", "a path emits a frame, releases Stream.write and then emits another frame of the same message (no id bump in between): a concurrent send or terminal packet can be written in the middle of the message and the peer discards it")
+	}
+	c.Floor("frame emissions followed in drpcstream", 1, nEmit)
+	c.Floor("releases of Stream.write followed", 1, nRel)
+}
+
+// c01r11: Get only marks the slot held; the slot is emptied by Done. Two
+// receivers between Get and Done would be lent the same buffer.
+func c01r11(c *an.Ctx) {
+	a := A(c)
+	pl := locksOf(c, "drpcstream")
+	read := a.field("drpcstream", "Stream", "read")
+	get := a.obj("drpcstream", "(*packetBuffer).Get")
+	done := a.obj("drpcstream", "(*packetBuffer).Done")
+	fns := must(c.P.SourceFuncs("drpcstream"))
+	var sites []lockSite
+	for _, fn := range fns {
+		an.Instrs(fn, func(in ssa.Instruction) {
+			ci, ok := in.(ssa.CallInstruction)
+			if !ok {
+				return
+			}
+			for _, m := range []*types.Func{get, done} {
+				if an.IsCallTo(ci.Common(), m) {
+					c.Analysed(fn)
+					sites = append(sites, lockSite{in, an.PathOf(an.Recv(ci.Common())).Root, "call (*packetBuffer)." + m.Name()})
+				}
+			}
+		})
+	}
+	nPrim, _ := lockRequirement(c, pl, fns, read, "Stream.read", sites)
+	c.Floor("packetBuffer.Get/Done call sites", 2, nPrim)
 }
